@@ -12,7 +12,7 @@ RULE = ("Hypothesis-generated triples of Capacities over all 8 fields (values 0.
         "one-field-differs boosted); oracle = integer arithmetic on field dictionaries. Non-trivial: a and b differ "
         "in >= 2 fields with mixed order (some field a<b and some a>b). Distinct by hash of the case.")
 ASSUMPTIONS = ["Capacities fields are the 8 documented ones; values are non-negative ints as the setter demands"]
-BUDGET = {"quick": 30000, "thorough": 2000000}
+BUDGET = {"quick": 30000, "thorough": 400000}
 MIN_LABEL_FRACTION = {"mixed-order": 0.15, "has-zero-field": 0.3, "a-fits-b": 0.03, "negative-vs-zero-field": 0.1}
 
 _val = st.one_of(st.sampled_from([0, 0, 1, 2, 7, 2 ** 31, 2 ** 62]), st.integers(0, 16), st.integers(0, 2 ** 62))
